@@ -100,9 +100,9 @@ def apply_rewrites(item, body, log):
             continue
         rx = re.compile(pat if is_re else lit_to_re(pat), re.S)
         found = rx.findall(body)
-        if (expect == -1 and len(found) == 0) or (expect != -1 and len(found) != expect):
+        if (expect == -1 and len(found) == 0) or (expect >= 0 and len(found) != expect):
             raise LostAnchor('item %s: rewrite %s %r expected %d matches, found %d' % (item.id, rule, pat, expect, len(found)))
-        for m in list(rx.finditer(body))[:3 if expect == -1 else None]:
+        for m in list(rx.finditer(body))[:3 if expect < 0 else None]:
             log.append({'rule': rule, 'item': item.id, 'matched': norm_ws(m.group(0)), 'replacement': norm_ws(m.expand(repl) if is_re else repl)})
         body = rx.sub(repl if is_re else (lambda _m: repl), body)
     return body
@@ -211,7 +211,7 @@ class Unit:
                         if d2.startswith('//@ rw'):
                             rule, cnt, r = d2[3:].strip()[2:].strip().split(' ', 2)
                             m = DELIM.match(r.strip())
-                            sit.rewrites.append((rule, -1 if cnt == '+' else int(cnt), bool(m.group(1)), m.group(2), m.group(3)))
+                            sit.rewrites.append((rule, (-1 if cnt == '+' else -2 if cnt == '*' else int(cnt)), bool(m.group(1)), m.group(2), m.group(3)))
                         elif d2:
                             sit.contract.append(lines[i])
                         i += 1
@@ -226,7 +226,7 @@ class Unit:
                         m = DELIM.match(r.strip())
                         if not m:
                             raise UnitError('%s:%d bad rw directive' % (self.path, i + 1))
-                        item.rewrites.append((rule, -1 if cnt == '+' else int(cnt), bool(m.group(1)), m.group(2), m.group(3)))
+                        item.rewrites.append((rule, (-1 if cnt == '+' else -2 if cnt == '*' else int(cnt)), bool(m.group(1)), m.group(2), m.group(3)))
                 elif word == 'loop':
                     ordn = int(rest)
                     blk = []
